@@ -10,7 +10,7 @@ import io
 import os
 import tempfile
 
-from vf import contracts, core
+from vf import contracts, core, repotests
 from vf.ref import payload as P
 
 ID = "C09"
@@ -54,6 +54,9 @@ def apply_ops(xf, model, ops):
 
 
 def check_case(case, ctx):
+    if case.get("op") == "repo_test":
+        repotests.run(ctx, ['tests/test_xordecode.py', 'tests/test_beacon.py', 'tests/test_pe.py'], [contracts.install_xordecode], {"contract.read.position": "XorEncodedFile.read.position"})
+        return
     from dissect.cobaltstrike import xordecode
 
     contracts.install_xordecode()
@@ -194,6 +197,7 @@ def plan(tier, seed):
     for i in range(5):
         shards.append({"kind": "detect", "n": 40 if q else 1500, "part": i})
     shards.append({"kind": "plain", "n": 40 if q else 2000})
+    shards.append({"kind": "repo_tests"})
     for s in shards:
         s["budget_s"] = 50 if q else 1500
         s["timeout_s"] = 300 if q else 3600
@@ -201,6 +205,9 @@ def plan(tier, seed):
 
 
 def run_shard(shard, ctx):
+    if shard["kind"] == "repo_tests":
+        repotests.run(ctx, ['tests/test_xordecode.py', 'tests/test_beacon.py', 'tests/test_pe.py'], [contracts.install_xordecode], {"contract.read.position": "XorEncodedFile.read.position"})
+        return
     rng = ctx.rng
     kind = shard["kind"]
     if kind == "history":
